@@ -91,6 +91,8 @@ type c17Fixture struct {
 	want    []string
 	needsSC []bool // operation reaches the signing context
 	bareKey bool   // the encryption key store hands out a key without precomputed values
+	// blankContexts: the requested authentication contexts contain empty entries
+	blankContexts bool
 }
 
 func digestResponse(sp *saml2.SAMLServiceProvider, enc string) string {
@@ -113,6 +115,10 @@ func newC17SP(f *c17Fixture) *KeyedSP {
 	ksp.SP.SignAuthnRequests = true
 	ksp.SP.SignAuthnRequestsAlgorithm = f.alg.URI
 	ksp.SP.SignAuthnRequestsCanonicalizer = f.canon.Obj
+	if f.blankContexts {
+		// a context list as it comes out of a configuration file (strings.Split(",a,b", ",")): blanks among the entries
+		ksp.SP.RequestedAuthnContext = &saml2.RequestedAuthnContext{Comparison: saml2.AuthnPolicyMatchExact, Contexts: []string{"", saml2.AuthnContextPasswordProtectedTransport, "", "urn:oasis:names:tc:SAML:2.0:ac:classes:X509"}}
+	}
 	if ks := ksp.Fields["encF"]; ks != nil && f.bareKey {
 		ks.Raw = BareRSA(ks.C.Key.RSA())
 	}
@@ -121,7 +127,7 @@ func newC17SP(f *c17Fixture) *KeyedSP {
 
 func buildC17Fixture(r *rand.Rand, now time.Time, kc KeyCfg) *c17Fixture {
 	w := NewWorld(now)
-	f := &c17Fixture{now: now, kc: kc, signer: w.IdP[2], bareKey: r.IntN(2) == 0}
+	f := &c17Fixture{now: now, kc: kc, signer: w.IdP[2], bareKey: r.IntN(2) == 0, blankContexts: r.IntN(3) == 0}
 	probe := NewKeyedSP(now, kc)
 	wantCert := probe.Certs[probe.WantSign]
 	algs := SigAlgsFor(wantCert.Key)
